@@ -29,10 +29,10 @@ func fixtureDir() string {
 
 type fixtureAck struct {
 	Acks []struct {
-		Key  string `json:"-"`
+		Key    string `json:"-"`
 		KeyB64 string `json:"key_b64"`
-		ID   uint64 `json:"id"`
-		Size int    `json:"size"`
+		ID     uint64 `json:"id"`
+		Size   int    `json:"size"`
 	} `json:"acks"`
 	NextID uint64 `json:"next_id"`
 }
